@@ -1357,8 +1357,18 @@ def s_history(draw, tier):
         a = opts()
     else:
         a = dict(b)
+    # driver-specific extra keywords passed ONLY to the earlier call A (they travel through **kwargs of array_split);
+    # a later call without them must not inherit them from any memo table
+    extra = {}
+    if draw(st.integers(0, 2)) == 0:
+        pool = {"eigh": [{"shift": 0.25}, {"positive": 1}, {"shift": 0.5, "positive": 1}], "svd": [{"info": "dict"}],
+                "auto": [{"info": "dict"}], "svd:eig": [{"info": "dict"}]}
+        extra = draw(st.sampled_from(pool[a["method"]]))
+        if draw(st.booleans()):
+            a = dict(b, method=a["method"]) if a["method"] == b["method"] else dict(b)  # same six basic options as B
+            extra = draw(st.sampled_from(pool[a["method"]]))
     return {"a": _enc(a), "b": _enc(b), "how": how, "m": draw(st.integers(2, 7)), "n": draw(st.integers(2, 7)), "seed": draw(A.seeds),
-            "dtype": draw(st.sampled_from(A.DTYPES64))}
+            "dtype": draw(st.sampled_from(A.DTYPES64)), "a_extra": extra}
 
 
 class Refused:
@@ -1393,7 +1403,9 @@ def run_history(case):
             return Refused(r.why)
 
     core.reset_quimb_state()
-    call(a)
+    a_extra = {k: ({} if v == "dict" else v) for k, v in (case.get("a_extra") or {}).items()}
+    call(dict(a, **a_extra))
+    info["a_extra"] = sorted(a_extra)
     after_a = call(b)
     core.reset_quimb_state()
     fresh = call(b)
